@@ -5,7 +5,7 @@
    the `range` member by the parser), and whether a `since` was written - and the report
    options start_of_week and --align-intervals.  Dates are day numbers (PeriodCalendar.v).
    Definitions only; proofs in Proofs/PeriodProofs.v. *)
-From LedgerV Require Import Base.Prelude Model.PeriodCalendar.
+From LedgerV Require Import Base.Prelude Model.PeriodCalendar Gen.PeriodSources.
 Local Open Scope Z_scope.
 
 Inductive quantum := QDays | QWeeks | QMonths | QQuarters | QYears.
@@ -298,3 +298,71 @@ Definition flush_posts (fuel : nat) (sow : Z) (align empty : bool) (st : ival) (
       end
     end;
   flush_loop fuel sow empty st posts [] false.
+
+(* ---- a bound written in the user's --input-date-format (times.cc:48-70, 1500-1522; times.h) ---- *)
+(* set_input_date_format pushes `new date_io_t(format, true)` to the front of the readers; its
+   constructor derives date_traits_t from the directives the format contains (boost icontains:
+   case-insensitive substring).  The period lexer turns a date word into
+   date_specifier_t(when, traits): year / month / day are copied from the parsed date only when
+   the traits say the format carries them, and date_specifier_t::begin() fills the others in with
+   the current year, January, the 1st. *)
+
+Definition lower_byte (c : Z) : Z := if (65 <=? c) && (c <=? 90) then c + 32 else c.
+
+Fixpoint prefix_ci (p s : str) {struct p} : bool :=
+  match p with
+  | [] => true
+  | a :: p' => match s with
+               | [] => false
+               | b :: s' => (lower_byte a =? lower_byte b) && prefix_ci p' s'
+               end
+  end.
+
+Fixpoint icontains (s p : str) {struct s} : bool :=
+  prefix_ci p s || match s with [] => false | _ :: s' => icontains s' p end.
+
+Record date_traits := mkTraits { has_year : bool; has_month : bool; has_day : bool }.
+
+Definition traits_of (tbl : list str * list str * list str) (fmt : str) : date_traits :=
+  let '(ys, ms, ds) := tbl in
+  mkTraits (existsb (icontains fmt) ys) (existsb (icontains fmt) ms) (existsb (icontains fmt) ds).
+
+(* the traits of the reader --input-date-format creates (the constructor's lists) *)
+Definition reader_traits (fmt : str) : date_traits := traits_of src_reader_traits_ctor fmt.
+
+(* date_specifier_t(when, traits).begin() *)
+Definition specifier_begin (t : date_traits) (cur_year : Z) (z : Z) : Z :=
+  let '(y, m, d) := civil_from_days z in
+  days_from_civil (if has_year t then y else cur_year)
+                  (if has_month t then m else 1)
+                  (if has_day t then d else 1).
+
+(* the bound the interval object receives for a date word that names day z in format fmt *)
+Definition bound_of_text (fmt : str) (cur_year z : Z) : Z := specifier_begin (reader_traits fmt) cur_year z.
+
+(* ---- --group-by: post_splitter::flush (filters.cc:52-66) over interval_posts ---------------------- *)
+(* One handler chain serves all groups: for each group its postings are pushed through the chain,
+   then flush(), then clear().  interval_posts::clear() resets the interval to the parsed one;
+   all_posts is emptied only if clear() does so (Gen.PeriodSources) - otherwise the next group's
+   flush sorts and walks the earlier groups' postings as well. *)
+
+(* std::stable_sort by date: insertion after every element that is not later *)
+Fixpoint insert_post (p : post) (l : list post) {struct l} : list post :=
+  match l with
+  | [] => [p]
+  | q :: l' => if p_date p <? p_date q then p :: l else q :: insert_post p l'
+  end.
+Definition sort_posts (acc l : list post) : list post := fold_left (fun a p => insert_post p a) l acc.
+
+Fixpoint flush_groups (fuel : nat) (sow : Z) (align empty clears : bool) (st : ival)
+         (all_posts : list post) (groups : list (list post)) {struct groups} : list (res (list row)) :=
+  match groups with
+  | [] => []
+  | g :: rest =>
+    let input := sort_posts (if clears then [] else all_posts) g in
+    flush_posts fuel sow align empty st input
+      :: flush_groups fuel sow align empty clears st input rest
+  end.
+
+Definition group_by_report (fuel : nat) (sow : Z) (align empty : bool) (st : ival) (groups : list (list post)) :=
+  flush_groups fuel sow align empty src_interval_clear_resets_all_posts st [] groups.
